@@ -16,7 +16,9 @@ import (
 	"fmt"
 	"os"
 	"os/exec"
+	"path/filepath"
 	"reflect"
+	"regexp"
 	"runtime"
 	"runtime/pprof"
 	"sort"
@@ -964,6 +966,108 @@ func repeat(u unit) *result {
 	return res
 }
 
+// importEdit: Generate's result is a function of the File AND of the imported files as they are on disk at the time of
+// the call. For every generating operation: call it, edit an imported file, call it again in this same process, and
+// compare with a fresh process that only ever saw the edited files. Edits: same size with the modification time put
+// back (what cp -p, rsync -t, tar or a build that normalises timestamps produce), same size, and grown by a comment.
+func importEdit(u unit) *result {
+	res := &result{Unit: u, Outcomes: map[string]int{}, Info: map[string]int{}}
+	setMapIter(1)
+	defer setMapIter(0)
+	srcDir := filepath.Dir(u.Schema)
+	ents, err := os.ReadDir(srcDir)
+	if err != nil {
+		fatal("importedit: %v", err)
+	}
+	for _, variant := range []string{"same-size-same-mtime", "same-size", "grown"} {
+		for _, n := range u.Ops {
+			op := opByName(n)
+			if op.Kind != "gen" {
+				continue
+			}
+			dir, err := os.MkdirTemp(filepath.Dir(srcDir), "importedit-")
+			if err != nil {
+				fatal("importedit: %v", err)
+			}
+			edited := 0
+			type fileState struct {
+				path string
+				text []byte
+				mt   time.Time
+			}
+			var imps []fileState
+			for _, e := range ents {
+				b, err := os.ReadFile(filepath.Join(srcDir, e.Name()))
+				if err != nil {
+					continue
+				}
+				dst := filepath.Join(dir, e.Name())
+				os.WriteFile(dst, b, 0o644)
+				old := time.Now().Add(-48 * time.Hour).Truncate(time.Second)
+				os.Chtimes(dst, old, old)
+				if e.Name() != filepath.Base(u.Schema) {
+					imps = append(imps, fileState{dst, b, old})
+				}
+			}
+			main := filepath.Join(dir, filepath.Base(u.Schema))
+			sc := loadSchema(main)
+			f1, err := sc.load()
+			if err != nil {
+				fatal("importedit: %v", err)
+			}
+			o1 := callSafe(op, &f1, sc)
+			for _, im := range imps {
+				t := string(im.text)
+				// same-length edits: the last letter of the package path, of the first struct field, of the first enum option
+				nt := regexp.MustCompile(`(go_package = "[^"]*)[a-z]"`).ReplaceAllString(t, `${1}q"`)
+				nt = regexp.MustCompile(`(struct \w+ \{ \w+ )\w(;)`).ReplaceAllString(nt, `${1}z${2}`)
+				nt = regexp.MustCompile(`(enum \w+ \{ )\w`).ReplaceAllString(nt, `${1}Z`)
+				if variant == "grown" {
+					nt += "// one more line\nstruct ZzAdded { int32 v; }\n"
+				}
+				if nt == t || (variant != "grown" && len(nt) != len(t)) {
+					continue
+				}
+				edited++
+				os.WriteFile(im.path, []byte(nt), 0o644)
+				if variant == "same-size-same-mtime" {
+					os.Chtimes(im.path, im.mt, im.mt)
+				}
+			}
+			if edited == 0 {
+				res.Info["importedit_no_edit_possible: "+n]++
+				os.RemoveAll(dir)
+				continue
+			}
+			f2, err := sc.load()
+			if err != nil {
+				fatal("importedit: %v", err)
+			}
+			o2 := callSafe(op, &f2, sc)
+			ref, err := soloFresh(u, main, n)
+			if err != nil {
+				res.Error = err.Error()
+				os.RemoveAll(dir)
+				return res
+			}
+			res.Evaluations += 3
+			res.Schedules++
+			if ref.sameResult(o1) {
+				res.Info["importedit_edit_does_not_change_the_output(vacuous): "+n+" "+variant]++
+			}
+			if !o2.sameResult(ref) {
+				res.report("C14|import-edit|"+n+"|"+variant+"|stale-result",
+					fmt.Sprintf("%s on %s: after an imported file was edited (%s) a second call in the same process returns status %s, %d bytes (sha %s); a fresh process given the same files returns status %s, %d bytes (sha %s); first difference at %s; the first call had returned sha %s",
+						n, filepath.Base(u.Schema), variant, o2.status(), len(o2.Out), o2.hash(), ref.status(), len(ref.Out), ref.hash(), firstDiffL(string(o2.Out), string(ref.Out), "second call", "fresh process"), o1.hash()),
+					map[string]any{"sub": "importedit", "schema": u.Schema, "ops": []string{n}, "variant": variant})
+			}
+			res.Outcomes["import-edit | "+n+" | "+variant+" | "+o2.status()]++
+			os.RemoveAll(dir)
+		}
+	}
+	return res
+}
+
 // soloFresh runs one operation on one schema in a new process of this same binary and returns what it observed.
 func soloFresh(u unit, path, op string) (obs, error) {
 	su := unit{Mode: "solo1", Schemas: []string{path}, Ops: []string{op}, Sites: u.Sites}
@@ -1007,16 +1111,29 @@ func race(u unit) *result {
 	res := &result{Unit: u, Outcomes: map[string]int{}, Info: map[string]int{}}
 	sc := loadSchema(u.Schema)
 	var defs []opDef
-	solo := []obs{}
 	for _, n := range u.Ops {
 		defs = append(defs, opByName(n))
-		f, err := sc.load()
-		if err != nil {
-			fatal("schema: %v", err)
-		}
-		solo = append(solo, callSafe(defs[len(defs)-1], &f, sc))
 	}
+	// The first concurrent iteration runs COLD: nothing of package bebop has run in this process yet, so state that is
+	// built lazily on first use (tables grown on demand, caches) is built while the goroutines race for it. The solo
+	// references are therefore computed after the first iteration, not before.
+	var solo []obs
+	var firstOuts []obs
 	for it := 0; it < u.Iters; it++ {
+		if it == 1 {
+			for i := range defs {
+				f, err := sc.load()
+				if err != nil {
+					fatal("schema: %v", err)
+				}
+				solo = append(solo, callSafe(defs[i], &f, sc))
+			}
+			for i := range defs {
+				if !firstOuts[i].sameResult(solo[i]) {
+					res.Info["free_running_result_differs_from_solo: "+u.Ops[i]]++
+				}
+			}
+		}
 		shared, _ := sc.load()
 		outs := make([]obs, len(defs))
 		start := make(chan struct{})
@@ -1033,6 +1150,10 @@ func race(u unit) *result {
 		close(start)
 		wg.Wait()
 		res.Schedules++
+		if it == 0 {
+			firstOuts = outs
+			continue
+		}
 		for i := range defs {
 			if !outs[i].sameResult(solo[i]) {
 				res.Info["free_running_result_differs_from_solo: "+u.Ops[i]]++
@@ -1162,6 +1283,18 @@ func main() {
 		res = mapOrder(u)
 	case "repeat":
 		res = repeat(u)
+	case "importedit":
+		res = importEdit(u)
+		if os.Getenv("C14_REPLAY") != "" {
+			for _, v := range res.Violations {
+				fmt.Printf("VIOLATION %s\n  %s\n", v.Sig, v.Msg)
+			}
+			if len(res.Violations) > 0 {
+				os.Exit(1)
+			}
+			fmt.Println("import-edit: second calls equal fresh-process results")
+			return
+		}
 	case "race":
 		res = race(u)
 	case "replay":
